@@ -34,6 +34,10 @@ func (h *vAS) state() string {
 	infB, infN := a.inflightQueue.getNumBytes(), a.inflightQueue.size()
 	penB, penN := a.pendingQueue.getNumBytes(), a.pendingQueue.size()
 	ss := a.ssthresh
+	fr := 0
+	if a.inFastRecovery {
+		fr = 1
+	}
 	cum := a.cumulativeTSNAckPoint
 	next := a.myNextTSN
 	a.lock.RUnlock()
@@ -46,8 +50,8 @@ func (h *vAS) state() string {
 	for _, id := range ids {
 		fmt.Fprintf(&sb, " %d:%d:%d", id, h.streams[uint16(id)].BufferedAmount(), h.cb[uint16(id)].Load())
 	}
-	return fmt.Sprintf("cwnd=%d ssthresh=%d rwnd=%d infB=%d infN=%d penB=%d penN=%d buf=%d cum=%d next=%d cblocked=%d |%s",
-		a.CWND(), ss, a.RWND(), infB, infN, penB, penN, a.BufferedAmount(), cum, next, h.cbLock.Load(), sb.String())
+	return fmt.Sprintf("cwnd=%d ssthresh=%d rwnd=%d infB=%d infN=%d penB=%d penN=%d buf=%d cum=%d next=%d cblocked=%d fr=%d |%s",
+		a.CWND(), ss, a.RWND(), infB, infN, penB, penN, a.BufferedAmount(), cum, next, h.cbLock.Load(), fr, sb.String())
 }
 
 func (h *vAS) logState() { h.l.line("as st", h.state()) }
@@ -171,6 +175,9 @@ func (h *vAS) exec(op []string) {
 	default:
 		t.Fatalf("as: unknown op %v", op)
 	}
+	// let timer-driven goroutines (RACK/PTO loop, rtx timers) that became runnable at this virtual instant finish:
+	// otherwise their order relative to the next op is up to the Go scheduler
+	synctest.Wait()
 	if op[1] != "new" {
 		h.logState()
 	}
@@ -187,22 +194,27 @@ type vPeerView struct {
 }
 
 func vASGenerate(t *testing.T, h *vAS, r *vrand, nseq, nops int) {
-	for s := 0; s < nseq; s++ {
+	var saved vrand
+	for s := 0; s < 2*nseq; s++ {
+		// every sequence is run twice with the same random choices: once from a TSN base in the middle of the
+		// number space (pair 0) and once from a base just below 2^32 (pair 1); the driver compares the two
+		// logs after normalising TSNs (C16: behaviour must not depend on absolute sequence numbers)
+		pair := s % 2
+		if pair == 0 {
+			saved = *r
+		} else {
+			*r = saved
+		}
 		mtu := r.pick(1200, 1200, 1228, 576, 1500, 256, 8192)
 		rcv := r.pick(0, 65536, 1<<20)
 		minCwnd := r.pick(0, 0, 0, 3000, 20000)
 		il := r.n(2)
-		var tsn uint32
-		switch r.n(3) {
-		case 0:
-			tsn = uint32(0) - uint32(r.n(300)) - 1
-		case 1:
-			tsn = uint32(r.n(100))
-		default:
-			tsn = r.u32()
+		tsn := uint32(0) - uint32(r.n(300)) - 1 // the shifted run wraps within the first few hundred TSNs
+		if pair == 0 {
+			tsn += 1 << 31
 		}
 		peerRwnd := uint32(r.pick(0, 1, 500, 1500, 10000, 65536, 1<<20, int(^uint32(0)>>1)))
-		h.do("as new %d %d %d %d %d %d %d %d", mtu, rcv, minCwnd, il, tsn, peerRwnd, r.pick(0, 0, 4000), r.pick(0, 0, 2000))
+		h.do("as new %d %d %d %d %d %d %d %d %d", mtu, rcv, minCwnd, il, tsn, peerRwnd, r.pick(0, 0, 4000), r.pick(0, 0, 2000), pair)
 		ns := 1 + r.n(3)
 		for i := 0; i < ns; i++ {
 			h.do("as open %d %d 0 0 %d", i+1, r.pick(0, 0, 1), r.pick(0, 0, 100, 5000))
